@@ -280,6 +280,12 @@ class SInt:
     def __pow__(self, o, m=None):
         raise EngineLimit("pow on SInt")
 
+    def __rpow__(self, base, m=None):
+        # constant ** symbolic exponent: fork over the (few) feasible exponents
+        if m is not None or not isinstance(base, int):
+            raise EngineLimit("rpow")
+        return base ** self.concretize()
+
     def __lshift__(self, o):
         if isinstance(o, int) and o >= 0:
             return self * (1 << o)
